@@ -344,6 +344,12 @@ SECONDARY:
 		switch {
 		case 'a' <= r0.Rune && r0.Rune <= 'z', 'A' <= r0.Rune && r0.Rune <= 'Z', '0' <= r0.Rune && r0.Rune <= '9':
 			uncommitted = append(uncommitted, r0)
+		case r0.Rune == '-':
+			if uncommitted[len(uncommitted)-1].Rune == '-' {
+				return "", nil, grammar.R_LANGTAG.Err(r.newOffsetError(cursorioutil.UnexpectedRuneError{Rune: r0.Rune}, uncommitted.AsDecodedRunes(), r0.AsDecodedRunes()))
+			}
+
+			uncommitted = append(uncommitted, r0)
 		default:
 			r.buf.BacktrackRunes(r0)
 
